@@ -9,7 +9,9 @@ import (
 	"sync"
 	"sync/atomic"
 	"testing"
+	"time"
 
+	"github.com/brewlin/net-protocol/pkg/waiter"
 	tcpip "github.com/brewlin/net-protocol/protocol"
 	"pgregory.net/rapid"
 	"verifharness/evid"
@@ -141,6 +143,7 @@ func runConcOnce(c ConcCase) *evid.Failure {
 	}
 	results := make([][]readRes, readers)
 	startReaders := make(chan struct{})
+	sendersDone := make(chan struct{})
 	if !c.Hold {
 		close(startReaders)
 	}
@@ -150,18 +153,36 @@ func runConcOnce(c ConcCase) *evid.Failure {
 			defer rwg.Done()
 			defer guard("reader")
 			<-startReaders
+			// poll a few times, then sleep until the socket signals data
+			// (or 1 ms passed, or the senders are done): notifications are
+			// not part of the property, so they are never relied upon
+			we, ch := waiter.NewChannelEntry(nil)
+			s.sk.WQ.EventRegister(&we, waiter.EventIn)
+			defer s.sk.WQ.EventUnregister(&we)
+			idle := 0
 			for {
 				fin := atomic.LoadInt32(&injDone) == 1
 				var from tcpip.FullAddress
 				v, _, err := s.sk.EP.Read(&from)
 				if err == nil {
 					results[r] = append(results[r], readRes{append([]byte(nil), v...), from})
+					idle = 0
 					continue
 				}
 				if fin {
 					return
 				}
-				runtime.Gosched()
+				if idle++; idle < 8 {
+					runtime.Gosched()
+					continue
+				}
+				tm := time.NewTimer(time.Millisecond)
+				select {
+				case <-ch:
+				case <-sendersDone:
+				case <-tm.C:
+				}
+				tm.Stop()
 			}
 		}(r)
 	}
@@ -180,6 +201,7 @@ func runConcOnce(c ConcCase) *evid.Failure {
 	}
 	wg.Wait()
 	atomic.StoreInt32(&injDone, 1)
+	close(sendersDone)
 	if c.Hold {
 		close(startReaders)
 	}
